@@ -170,16 +170,17 @@ Section Signed.
     intros i H. apply send_join_admissible_meaning. apply (send_join_ok sign i H).
   Qed.
 
-  (* the same read off the event text, when the record is the one fields_of_event extracts *)
+  (* the same read off the event text, when the record is the one fields_of_event extracts
+     (a repeated member counts as its last occurrence, as for every reader of the stored event) *)
   Theorem send_join_accept_only_if_on_event_text : forall i,
     sj_fields i = fields_of_event (sj_event i) (ef_event_id (sj_fields i)) ->
     er_out (send_join sign i) = OOk ->
     let ev := sj_event i in
-    jget_str (bs "type") ev = Some m_room_member /\
-    (exists content, jget (bs "content") ev = Some content /\
-                     jget (bs "membership") content = Some (JStr s_join)) /\
-    (exists sender, sender <> [] /\ jget_str (bs "sender") ev = Some sender /\
-                    jget (bs "state_key") ev = Some (JStr sender)).
+    jget_last_str (bs "type") ev = Some m_room_member /\
+    (exists content, jget_last (bs "content") ev = Some content /\
+                     string_member (bs "membership") content = Some s_join) /\
+    (exists sender, sender <> [] /\ jget_last_str (bs "sender") ev = Some sender /\
+                    jget_last (bs "state_key") ev = Some (JStr sender)).
   Proof.
     intros i F H. destruct (send_join_accept_only_if i H) as [_ [_ [Ht [Hm [Hk [Hs _]]]]]].
     rewrite F in Ht, Hm, Hk, Hs. eapply join_fields_on_event; eassumption.
